@@ -860,7 +860,7 @@ fn main() {
     ctx.assume("basins are computed conservatively from |f'(r)|/(2 max|f''|); a counting closure panics beyond 4x the evaluation bound so that an unbounded loop is reported, not waited for");
     ctx.threshold("scalar_root_error_over_bound", 1.0);
     ctx.threshold("system_root_error_over_bound", 1.0);
-    ctx.require(&["Ok answers", "Err answers", "guess at the basin edge", "systems of dimension >= 3", "solve after an earlier solve on the same object", "configuration with max_iter = 0"]);
+    ctx.require(&["Ok answers", "Err answers", "guess at the basin edge", "systems of dimension >= 3", "system of dimension >= 7", "solve after an earlier solve on the same object", "configuration with max_iter = 0"]);
     let fm = fams();
     let nf = fm.len() as u64;
     let per = (TS.len() * TOLS.len() * ITERS.len() * 2) as u64;
@@ -980,6 +980,76 @@ fn main() {
             }
         },
     );
+    // dimensions beyond 6 (every residue of a 4- or 8-wise blocked residual test), and systems in which ONE equation has no
+    // root (x_p^2 + 1 = 0 at position p): such a system has no root, so success must never be reported
+    {
+        let dims: Vec<usize> = vec![7, 8, 9, 10, 11, 12, 13, 16, 17, 21];
+        let dd = dims.clone();
+        ctx.lattice(
+            &format!("real systems of dimension {:?}: convergence (2 guesses x 2 tolerances x 3 limits x 2 Jacobians) and one-equation-root-free variants at 3 positions", dims),
+            dims.len() as u64,
+            |i| format!("n={}", dd[i as usize]),
+            |i, acc| {
+                let n = dd[i as usize];
+                acc.nontriv("system of dimension >= 7");
+                let mut local = Acc::new("t");
+                let res = catch(|| -> Result<(), String> {
+                    for gi in [1usize, 3] {
+                        for tol in [1e-10, 1e-6] {
+                            for it in [2usize, 5, 50] {
+                                for ej in [false, true] {
+                                    system_case(n, 0, gi, tol, it, ej, &mut local).map_err(|e| format!("n={} guess#{} tol={:e} max_iter={} supplied={}: {}", n, gi, tol, it, ej, e))?;
+                                }
+                            }
+                        }
+                    }
+                    // root-free component at position p
+                    let d = dmat(n);
+                    let xr = xroot(n);
+                    for p in [0usize, n / 2, n - 1] {
+                        let fvec = |x: &[f64]| -> Vec<f64> {
+                            (0..n).map(|i| if i == p { x[p] * x[p] + 1.0 } else { (0..n).map(|j| d[i][j] * (x[j] - xr[j])).sum::<f64>() }).collect()
+                        };
+                        for ej in [false, true] {
+                            for it in [1usize, 3, 8, 20] {
+                                let mut nw = Newton::<Vec64>::new(Vector::create((0..n).map(|i| xr[i] + 0.25).collect()));
+                                nw.iterations(it);
+                                nw.tolerance(1e-8);
+                                let f = |v: Vec64| -> Vec64 { Vector::create(fvec(&v.vec)) };
+                                let jac = |v: Vec64| -> Mat64 {
+                                    let mut m = Mat64::new(n, n, 0.0);
+                                    for i in 0..n {
+                                        for j in 0..n {
+                                            m[(i, j)] = if i == p { if j == p { 2.0 * v[p] } else { 0.0 } } else { d[i][j] };
+                                        }
+                                    }
+                                    m
+                                };
+                                let r = if ej { nw.solve_jacobian(&f, &jac) } else { nw.solve(&f) };
+                                ensure!(r.is_err(), "n={} root-free equation at position {} (supplied Jacobian: {}, max_iter {}): success reported with x = {:?}", n, p, ej, it, r.map(|v| v.vec));
+                            }
+                        }
+                    }
+                    Ok(())
+                });
+                for (k, v) in std::mem::take(&mut local.hits) {
+                    *acc.hits.entry(k).or_insert(0) += v;
+                }
+                acc.merge_worst(local);
+                match res {
+                    Ok(Ok(())) => {}
+                    Ok(Err(e)) => {
+                        if e.contains("MACHINERY") {
+                            acc.machinery(e)
+                        } else {
+                            acc.fail(i, format!("large system n={}", n), e)
+                        }
+                    }
+                    Err(p) => acc.fail(i, format!("large system n={}", n), format!("unexpected panic: {}", p)),
+                }
+            },
+        );
+    }
     let perc2 = (4 * TOLS.len() * ITERS.len() * 2) as u64;
     ctx.lattice(
         "complex systems: dimension 1..6 x 4 guesses x 5 tolerances x 7 iteration limits x {finite-difference, supplied} Jacobian",
